@@ -373,28 +373,48 @@ impl GateSim {
     /// Hands the baton to writer `id` and waits until it parks at its next point.
     /// Returns the site it parked at.
     pub fn step_writer(&self, id: u64) -> &'static str {
+        match self.step_writer_timeout(id, STUCK) {
+            Some(site) => site,
+            None => panic!("simulation stuck: writer {id} did not reach its next point: {:?}", self.lock().writers.get(&id)),
+        }
+    }
+
+    /// Like `step_writer`, but gives up after `timeout`: the writer is then blocked on something only
+    /// another entity can release (e.g. the live-index lock granted to a client task that has not been
+    /// polled yet). `wait_writer_parked` picks it up again later.
+    pub fn step_writer_timeout(&self, id: u64, timeout: Duration) -> Option<&'static str> {
         let mut g = self.lock();
-        let before = {
+        {
             let w = g.writers.get_mut(&id).expect("unknown writer");
             assert!(w.parked.is_some(), "writer {id} is not parked");
             w.granted = true;
-            w.arrivals
-        };
+        }
         self.cv.notify_all();
+        drop(g);
+        self.wait_writer_parked(id, timeout)
+    }
+
+    /// Waits until writer `id` is parked at a point (and not granted).
+    pub fn wait_writer_parked(&self, id: u64, timeout: Duration) -> Option<&'static str> {
+        let mut g = self.lock();
         let start = std::time::Instant::now();
         loop {
-            let w = &g.writers[&id];
-            if w.arrivals > before && w.parked.is_some() && !w.granted {
-                let site = w.parked.unwrap();
-                drop(g);
-                return site;
+            if let Some(w) = g.writers.get(&id) {
+                if w.parked.is_some() && !w.granted {
+                    return w.parked;
+                }
             }
-            let (ng, _) = self.cv.wait_timeout(g, Duration::from_millis(5)).unwrap_or_else(|e| e.into_inner());
+            let (ng, _) = self.cv.wait_timeout(g, Duration::from_millis(2)).unwrap_or_else(|e| e.into_inner());
             g = ng;
-            if start.elapsed() > STUCK {
-                panic!("simulation stuck: writer {id} did not reach its next point: {:?}", g.writers[&id]);
+            if start.elapsed() > timeout {
+                return None;
             }
         }
+    }
+
+    /// Writers that hold the baton but are not parked (running or blocked).
+    pub fn unparked_writers(&self) -> Vec<u64> {
+        self.lock().writers.iter().filter(|(_, w)| w.parked.is_none() && w.busy).map(|(i, _)| *i).collect()
     }
 
     fn gate_writer(&self, mut g: MutexGuard<'_, Inner>, id: u64, site: &'static str, a: u64, b: u64) {
